@@ -350,6 +350,8 @@ def run(ctx):
             if e.kind == "call" and g.wrole.get(e.name) == "board" and len(e.args) == 4:
                 nplace += 1
                 piece, colour, sq = e.args[1], e.args[2], L.lift(e.args[3])
+                if sq[0] == "bbof":
+                    sq = sq[1]          # a placement writer that takes a set: here the set of one square
                 ch = sym.subterms(piece, lambda y: y[0] == "call" and y[1] == "char::to_ascii_lowercase")
                 okp = bool(ch) and sym.contains(piece, lambda y: y[0] == "call" and y[1].endswith("TryInto<U>>::try_into"))
                 cchar = ch[0][2][0] if ch else None
